@@ -8,6 +8,8 @@ import random
 
 import progprop
 import progstream as P
+from gen import ast as A
+from vlib import driver_run, esc_field, harness_run, sexp_parse, sexp_str
 from gen.programs import INT, BOOL, STR, FLOAT, VOID, tup, fn, iter_of, arr, cell, multi
 
 THM_MODULES = ["SslModel.Thm.C13"]
@@ -109,6 +111,55 @@ def history(rnd, n_ops):
     return stmts + [final]
 
 
+def repl_histories(res, rnd, n, broken_model):
+    """the same histories fed one statement at a time to ONE interpreter (REPL route): a failing update
+    ends that input only, so the cells can be observed afterwards — implementation vs. Spec"""
+    hl, ml, metas = [], [], []
+    for _ in range(n):
+        stmts = history(rnd, rnd.randint(3, 16))[:-1]
+        # make failures likely: sprinkle failing compound updates on int cells
+        names = sorted({s[1] for s in stmts if s[0] in ("set", "fndecl")})
+        cells = [s[1] for s in stmts if s[0] == "set" and s[2][0] == "mut" and s[2][1] == INT]
+        extra = []
+        for c in cells[:2]:
+            op, bad = rnd.choice([("div", 0), ("mod", 0), ("shl", 64), ("shr", -1), ("pow", -1)])
+            extra += [("assign", op, V(c), I(bad)), D(V(c)), ("assign", "add", V(c), I(1))]
+        stmts = stmts + extra
+        hl.append("repl\tstd\t%s\t%s" % (",".join(names), "\t".join(esc_field(A.src(s)) for s in stmts)))
+        ml.append("repl std 4000 (%s) %s" % (" ".join(names), " ".join("(" + A.sx(s) + ")" for s in stmts)))
+        metas.append(stmts)
+    impl = harness_run(hl)
+    model = driver_run(ml) if not broken_model else ["(no-model)"] * len(ml)
+    res.streams["repl-histories"] = dict(histories=len(hl))
+    for stmts, il, mo in zip(metas, impl, model):
+        res.evaluations += 1
+        a, b = sexp_parse(il), sexp_parse(mo)
+        srcs = [A.src(s) for s in stmts]
+        if not (isinstance(a, list) and a and a[0] == "repl"):
+            res.violation("REPL history crashed: %s" % il[:200], dict(inputs=srcs, impl=il), dict(oracle="repl-crash"))
+            continue
+        if any(isinstance(st, list) and sexp_str(st[1]).startswith(("(panic", "(parse-panic")) for st in a[1:]):
+            k = next(i for i, st in enumerate(a[1:]) if sexp_str(st[1]).startswith(("(panic", "(parse-panic")))
+            res.violation("REPL history panics at input %d `%s` of %s: %s" % (k, srcs[k], srcs[:k], sexp_str(a[1 + k][1])),
+                          dict(inputs=srcs, impl=il, model=mo), dict(oracle="panic", root="repl-history"))
+            continue
+        res.nontrivial.add(tuple(srcs))
+        if broken_model or not (isinstance(b, list) and b and b[0] == "repl"):
+            continue
+        na, nb = sexp_str(P.mask_junk(a)), sexp_str(P.mask_junk(b))
+        if "(rejected" in na:
+            res.count("repl-histories:some-input-rejected")
+            continue
+        if na != nb:
+            k = next((i for i, (x, y) in enumerate(zip(a[1:], b[1:])) if sexp_str(P.mask_junk(x)) != sexp_str(P.mask_junk(y))), 0)
+            res.violation("REPL history differs from Spec at input %d `%s` (after %s): impl %s, Spec %s" %
+                          (k, srcs[k] if k < len(srcs) else "?", srcs[:k][-4:], sexp_str(a[1 + k])[:300], sexp_str(b[1 + k])[:300]),
+                          dict(inputs=srcs, impl=il, model=mo), dict(oracle="spec-diff", cls="repl-history"))
+        else:
+            res.traces_validated += 1
+            res.count("repl-histories:agree")
+
+
 def templates():
     T = []
     LOG = ("set", "log", ("mut", arr(ANY), ("array", [])))
@@ -146,6 +197,7 @@ def run(res, tier, seed, broken_model):
         if r.ivalue and not r.ivalue.startswith("(error") and "tags=0" in r.impl:
             res.violation("a cell reachable from the result holds a value outside its declared type: `%s` -> %s" % (r.src[:300], r.impl[:300]),
                           dict(program=r.src, flags=r.flags, impl=r.impl), dict(oracle="cell-content", root=progprop.root_of(r)))
+    repl_histories(res, rnd, 120 if tier == "quick" else 3000, broken_model)
     errs = sum(1 for r in recs if r.ivalue and r.ivalue.startswith("(error"))
     res.count("histories-ending-in-documented-error", errs)
     for r in recs[len(templates()):len(templates()) + 3]:
